@@ -24,7 +24,8 @@ structure GraphIn where
 
 structure GraphOut where
   implFlagged : Bool := false
-  crossing : Bool := false
+  crossing : Bool := false        -- `Crossing g ps`: between clocks, or a hazard of an unbound clock slot
+  clockCrossing : Bool := false   -- a crossing between two clock domains
   usable : Bool := false      -- supported node kinds only, closed, order covers all ports
   hasUnknown : Bool := false
 
@@ -149,9 +150,11 @@ def evalGraph (caseId : String) (gi : GraphIn) : Array String × GraphOut × Lis
   let hasUnknown := !g.noUnknownB
   if hasUnknown then st := bumpBy st "graphsWithUnboundClock" 1
   let mut crossing := false
+  let mut clockCrossing := false
   if usable then
     let ls := g.labelSets depths
     crossing := g.crossingB ps ls
+    clockCrossing := g.crossingB ps ls true
     -- by `verdict_iff_crossing` the model verdict must agree with the path-based specification
     let mv := g.rejects ps modelTotal
     if mv != crossing then
@@ -160,7 +163,7 @@ def evalGraph (caseId : String) (gi : GraphIn) : Array String × GraphOut × Lis
       msgs := msgs.push (diff "confluence" s!"modelRejects={mv} domRejects={g.rejects ps (dom g)}")
     let nmark := gi.nodes.foldl (fun a nd => match nd.kind with | .cdc _ _ => a + 1 | _ => a) 0
     st := bumpBy st "markers" nmark
-  return (msgs, { implFlagged := !gi.flagged.isEmpty, crossing := crossing, usable := usable, hasUnknown := hasUnknown }, st)
+  return (msgs, { implFlagged := !gi.flagged.isEmpty, crossing := crossing, clockCrossing := clockCrossing, usable := usable, hasUnknown := hasUnknown }, st)
 
 def parseNode (toks : List String) : Option (Node × Nat × String × Bool) :=
   match toks with
@@ -187,15 +190,19 @@ def endCase (d : D) : D × Array String := Id.run do
       if thrown != post.implFlagged then
         msgs := msgs.push s!"DIFF case={d.caseId} kind=verdict postprocess={d.verdict} flaggedAfterPostprocess={post.implFlagged}"
       if pre.usable && post.usable then
-        -- the property, on the design as written and on the graph the check actually sees
-        if thrown != pre.crossing then
-          msgs := msgs.push (if pre.crossing
-            then s!"PROPFAIL case={d.caseId} kind=crossing-accepted the design as built contains an unmarked/wrongly marked crossing but postprocess() did not throw (crossingAfterPostprocess={post.crossing})"
-            else s!"PROPFAIL case={d.caseId} kind=clean-rejected every crossing of the design as built is correctly marked but postprocess() threw the CDC error (crossingAfterPostprocess={post.crossing})")
-        else if thrown != post.crossing then
-          msgs := msgs.push (if post.crossing
-            then s!"PROPFAIL case={d.caseId} kind=crossing-accepted-post the post-processed graph contains a crossing but postprocess() did not throw"
-            else s!"PROPFAIL case={d.caseId} kind=clean-rejected-post the post-processed graph contains no crossing but postprocess() threw the CDC error")
+        -- the property, on the design as written and on the graph the check actually sees.  Hazards that involve only unbound
+        -- clock slots (no clock domain to cross into; reachable only through the hlim API) are outside the property statement:
+        -- for them only the model/implementation comparison above applies.
+        if !thrown && pre.clockCrossing then
+          msgs := msgs.push s!"PROPFAIL case={d.caseId} kind=crossing-accepted the design as built contains an unmarked/wrongly marked crossing between two clock domains but postprocess() did not throw (crossingAfterPostprocess={post.crossing})"
+        else if thrown && !pre.crossing then
+          msgs := msgs.push s!"PROPFAIL case={d.caseId} kind=clean-rejected every crossing of the design as built is correctly marked but postprocess() threw the CDC error (crossingAfterPostprocess={post.crossing})"
+        else if !thrown && post.clockCrossing then
+          msgs := msgs.push s!"PROPFAIL case={d.caseId} kind=crossing-accepted-post the post-processed graph contains a crossing between two clock domains but postprocess() did not throw"
+        else if thrown && !post.crossing then
+          msgs := msgs.push s!"PROPFAIL case={d.caseId} kind=clean-rejected-post the post-processed graph contains no crossing but postprocess() threw the CDC error"
+        if thrown && !pre.clockCrossing then d := d.stat "rejectedOnlyForUnboundClockHazard"
+        if !thrown && pre.crossing then d := d.stat "unboundClockHazardGoneAfterOptimisation"
         if pre.crossing != post.crossing then d := d.stat "crossingChangedByOptimisation"
         match d.intent with
         | some i =>
